@@ -278,6 +278,21 @@ def prov(v: dict, env: List[dict], x: dict, inv: dict, mode: str, out: List[str]
                         out.append(f"{where}: set member error matches no member of the set")
             return
         if e == "custom" and k == "ntuple":
+            # `validate_object` failed: the error holds the tuple that was *built* from the slots' payloads
+            src = x.get("xs") if x.get("t") in ("list", "tuple") else None
+            if src is not None and len(src) == len(v["fields"]):
+                pays = []
+                for cv, el in zip(v["fields"], src):
+                    r = run_alone(cv, env, el, mode)["out"]
+                    if "valid" not in r:
+                        pays = None
+                        break
+                    pays.append(r["valid"])
+                if pays is not None:
+                    if coerced.get("t") != "tuple" or norm(coerced.get("xs")) != norm(pays):
+                        out.append(f"{where}: validate_object error does not hold the tuple built from the slots' payloads")
+                    elif coerced.get("oid") != 0 and pays:
+                        out.append(f"{where}: validate_object error holds a caller's object, not the built tuple")
             return
         out.append(f"{where}: {k} reported {e}")
         return
@@ -361,9 +376,14 @@ def py_eq_desc(a: dict, b: dict) -> bool:
 def holds_coerced(v: dict, x: dict, held: dict) -> bool:
     """`held` is the value a later stage of `v` has in hand for input `x`: the input itself (by
     identity) when no coercion changed it, else a fresh object with the input's contents"""
+    co = v.get("coerce")
+    want = {"list": "list", "set": "set", "utuple": "tuple", "ntuple": "tuple", "map": "dict"}.get(v["k"])
+    if co is not None and want is not None and held.get("t") not in (want, "sub"):
+        # a later stage holds what the coercer returned, which is of the validator's container type: not the
+        # raw input of another type
+        return False
     if norm(held) == norm(x):
         return True   # same object (oids equal)
-    co = v.get("coerce")
     if co is None and not (v["k"] == "record" and v["kind"] in ("dataclass", "namedtuple") and x["t"] == "inst"):
         return False
     # coerced: contents must come from the input
